@@ -226,8 +226,11 @@ class Gen:
                         collide = True
                     else:
                         name = self.fresh('j')
-                a = ('int', r.randint(0, 2)) if r.random() < 0.7 else self.expr(env, 'int', 1, in_fn)
-                b = ('int', r.randint(1, 5)) if r.random() < 0.7 else self.expr(env, 'int', 1, in_fn)
+                # a colliding counter does not occur in its own bounds (the order "assign start, then evaluate
+                # the upper bound" is an implementation detail the language does not define)
+                benv0 = [{x: t for x, t in sc.items() if not (collide and x == name)} for sc in env]
+                a = ('int', r.randint(0, 2)) if r.random() < 0.7 else self.expr(benv0, 'int', 1, in_fn)
+                b = ('int', r.randint(1, 5)) if r.random() < 0.7 else self.expr(benv0, 'int', 1, in_fn)
                 step = None if r.random() < 0.6 else ('int', r.randint(1, 3))
                 benv = env + [{name: 'int'}] if (named and not collide) else env
                 body = self.block(benv, depth - 1, 1, in_fn)
@@ -451,7 +454,9 @@ def assign_spans(prog, fname):
     positions = []
     for ln, line in enumerate(text.split('\n'), 1):
         for m in re.finditer(r'\bassert\b|\bget\b', line):
-            positions.append((m.group(0), '%s:%d:%d' % (fname, ln, m.start() + 1)))
+            # `assert` reports the statement, `get` the operand that follows the keyword
+            col = m.start() + 1 + (4 if m.group(0) == 'get' else 0)
+            positions.append((m.group(0), '%s:%d:%d' % (fname, ln, col)))
     it = {'assert': iter([p for k, p in positions if k == 'assert']), 'get': iter([p for k, p in positions if k == 'get'])}
 
     def fe(e):
@@ -691,3 +696,61 @@ def skeleton_programs(depth, per_file=12):
             prog.append(('asg', 'n', None, ('bin', '+', ('var', 'n'), ('int', 1))))
         out.append(prog)
     return out
+
+
+# ---------------------------------------------------------------- shrinking (delta debugging over statement lists)
+def shrink(prog, still_fails, budget=150):
+    """greedy: try dropping each statement / replacing a compound statement by its body, anywhere in the tree"""
+    def variants(stmts):
+        for i, s in enumerate(stmts):
+            yield stmts[:i] + stmts[i + 1:]
+            k = s[0]
+            if k == 'if':
+                yield stmts[:i] + list(s[2]) + stmts[i + 1:]
+            elif k == 'ifelse':
+                yield stmts[:i] + list(s[2]) + stmts[i + 1:]
+                yield stmts[:i] + list(s[3]) + stmts[i + 1:]
+            elif k == 'ifelif':
+                yield stmts[:i] + list(s[2]) + stmts[i + 1:]
+                yield stmts[:i] + [s[3]] + stmts[i + 1:]
+            # recurse into bodies
+            subs = []
+            if k in ('if', 'while'):
+                subs = [(2, s[2])]
+            elif k == 'ifelse':
+                subs = [(2, s[2]), (3, s[3])]
+            elif k == 'ifelif':
+                subs = [(2, s[2])]
+            elif k == 'from':
+                subs = [(7, s[7])]
+            elif k == 'asg' and s[3][0] == 'fn':
+                for v in variants(list(s[3][3])):
+                    if v:
+                        yield stmts[:i] + [('asg', s[1], s[2], ('fn', s[3][1], s[3][2], v))] + stmts[i + 1:]
+            for idx, body in subs:
+                for v in variants(list(body)):
+                    if v:
+                        ns = list(s)
+                        ns[idx] = v
+                        yield stmts[:i] + [tuple(ns)] + stmts[i + 1:]
+            if k == 'ifelif':
+                for v in variants([s[3]]):
+                    if len(v) == 1 and v[0][0] in ('if', 'ifelse', 'ifelif'):
+                        yield stmts[:i] + [('ifelif', s[1], s[2], v[0])] + stmts[i + 1:]
+    cur = list(prog)
+    n = 0
+    progress = True
+    while progress and n < budget:
+        progress = False
+        for v in variants(cur):
+            n += 1
+            if n > budget:
+                break
+            try:
+                if still_fails(v):
+                    cur = v
+                    progress = True
+                    break
+            except Exception:
+                continue
+    return cur
